@@ -117,8 +117,14 @@ def fill(container, inst):
                 fill(c, it)
                 items.append(c)
             container.set_group(tag, items)
+        elif v is MARKER:
+            from asyncfix.errors import RepeatingTagError
+            container.set(tag, RepeatingTagError)       # what Codec.decode stores for a tag that occurs twice outside a known group
         else:
             container.set(tag, v)
+
+
+MARKER = object()
 
 
 # ------------------------------------------------------------------ faults
@@ -161,6 +167,9 @@ def fault_positions(dic, msgdef, inst, rnd=None):
                 b = bad_value(node, rnd)
                 if b is not None:
                     out.append(("bad-value" if not node["enum"] else "value-outside-enumeration", d, path, idx, b))
+                # a value of zero length, and the marker the decoder leaves for a tag that was given twice: outside every type
+                out.append(("empty-value", d, path, idx, ""))
+                out.append(("repeated-tag-marker", d, path, idx, MARKER))
                 if not is_first_of_item or len(lvl) > 1:
                     out.append(("plain-field-given-as-group", d, path, idx, None))
             else:
@@ -186,7 +195,7 @@ def apply_fault(inst, fault):
     lvl = get_level(new, path)
     if cls in ("missing-required-field", "missing-required-member-in-item", "missing-required-group", "item-without-first-member"):
         del lvl[idx]
-    elif cls in ("bad-value", "value-outside-enumeration"):
+    elif cls in ("bad-value", "value-outside-enumeration", "empty-value", "repeated-tag-marker"):
         lvl[idx][1] = extra
     elif cls == "plain-field-given-as-group":
         lvl[idx][1] = [[[{"tag": lvl[idx][0]["tag"], "kind": "field"}, "1"]]] if False else [[[dict(lvl[idx][0]), "1"]]]
